@@ -5,6 +5,7 @@ if a loop is rewritten the translator raises = broken tie)."""
 import os
 import re
 from .cparse import strip_comments, unescape
+from .fallback import with_fallback
 
 
 def ws(rx):
@@ -27,6 +28,13 @@ def coq_bytes(b):
 
 
 def generate(repo):
+    regions = [read(repo, "preprocess", "fields.hh"), read(repo, "preprocess", "fields.cc")]
+    for f in ("dedupe_main.cc", "shard_main.cc", "cache_main.cc"):
+        regions.append("\n".join(l for l in read(repo, "preprocess", f).split("\n") if "default_value" in l or "kInfiniteEnd" in l))
+    return "Src_fields.v", with_fallback("Src_fields.v", regions, lambda: strict(repo)[1])
+
+
+def strict(repo):
     hh = read(repo, "preprocess", "fields.hh")
     cc = read(repo, "preprocess", "fields.cc")
     need(ws(r"unsigned int begin , end ;"), hh, "FieldRange members are unsigned int", "fields.hh")
